@@ -14,6 +14,8 @@ pub struct CoreOpts {
     pub seed: u64,
     pub jax_every: u64,
     pub conc_filter: Option<String>,
+    /// which concretisation families to use (prefix match): dense, borders, random, roots
+    pub concs: Vec<String>,
 }
 
 fn check(st: &mut Stats, opts: &CoreOpts, line: &Value, conc: &Concretisation, path: &str, built: &Built, exp: &Expected, focus: &[Focus]) {
@@ -60,6 +62,8 @@ pub fn replay_line(st: &mut Stats, opts: &CoreOpts, idx: usize, line: &Value) {
             if &conc.name != f {
                 continue;
             }
+        } else if !opts.concs.iter().any(|p| conc.name.starts_with(p.as_str())) {
+            continue;
         }
         let (scn, exp) = from_tlc(line, conc);
         // Builder path, three supply orders
@@ -102,10 +106,9 @@ pub fn run(args: &Args) {
         seed: args.num("seed", 1),
         jax_every: args.num("jax-every", 1),
         conc_filter: None,
+        concs: args.get("concs").unwrap_or("dense,borders,random,roots,identity").split(',').map(|s| s.to_string()).collect(),
     };
-    let all = read_tlc_lines(args.req("in"), "REPLAY");
-    let n_all = all.len();
-    let lines: Vec<Value> = all.into_iter().enumerate().filter(|(i, _)| in_shard(*i, shard)).map(|(_, l)| l).collect();
+    let (n_all, lines) = read_tlc_lines_sharded(args.req("in"), "REPLAY", shard);
     if n_all == 0 {
         eprintln!("no REPLAY lines in {}", args.req("in"));
         std::process::exit(2);
@@ -140,6 +143,7 @@ pub fn replay_one(v: &Value) -> bool {
         seed: v["seed"].as_u64().unwrap_or(1),
         jax_every: 1,
         conc_filter: v.get("conc").map(|c| Concretisation::from_json(c).name),
+        concs: vec![],
     };
     let mut st = Stats::default();
     replay_line(&mut st, &opts, 0, &v["line"]);
